@@ -381,6 +381,48 @@ def run(ctx):
             kinds[kind] = kinds.get(kind, 0) + 1
             ctx.count_case((name, json.dumps(pth), json.dumps(newv)))
         traces.append({"id": name, "events": events})
+    # second public names: a loaded MetaModule's u_<label> aliases (an UNLABELLED user-defined controller sits in front of the
+    # labelled ones) edit the controller that carries the label - the saved state equals the one after the edit by number
+    def alias_source():
+        mm = api.m.MetaModule()
+        emb = api.Project()
+        mm.project = emb
+        emb.metamodule = mm
+        a1, a2 = emb.new_module(api.m.Amplifier), emb.new_module(api.m.Amplifier)
+        for j, (mod_, c) in enumerate([(a1, 0), (a2, 7), (a1, 4), (a2, 0)]):      # volume, gain, stereo_width, volume
+            mm.mappings.values[j].module, mm.mappings.values[j].controller = mod_.index, c
+        mm.user_defined_controllers = 4
+        mm.update_user_defined_controllers()
+        for j, lb in enumerate([None, "Gain", "Width", None]):
+            if lb:
+                mm.user_defined[j].label = lb
+        return mm
+    for where in ("synth", "project"):
+        if where == "synth":
+            data = api.Synth(alias_source()).read()
+            get = lambda r: r.module
+        else:
+            pj = api.Project()
+            pj.attach_module(alias_source())
+            data = pj.read()
+            get = lambda r: r.modules[1]
+        events = [{"op": "base", "obj": projection.project_any(fmt.load(data)[1], spec, True)}]
+        for num, alias, v in ((2, "u_gain", 3000), (3, "u_width", 77)):
+            def edited(fn):
+                try:
+                    o2 = fmt.load(data)[1]
+                    fn(get(o2))
+                    return fmt.load(o2.read())
+                except Exception as e:
+                    return "edit-raised:" + type(e).__name__, None
+            _, named = edited(lambda m_: setattr(m_, "user_defined_%d" % num, v))
+            out, after = edited(lambda m_: setattr(m_, alias, v))
+            events.append({"op": "alias", "kind": alias, "outcome": out,
+                           "named": projection.project_any(named, spec, True) if named is not None else {"kind": "none"},
+                           "after": projection.project_any(after, spec, True) if after is not None else {"kind": "none"}})
+            kinds["alias"] = kinds.get("alias", 0) + 1
+            ctx.count_case(("alias", where, alias))
+        traces.append({"id": "meta-alias." + where, "events": events})
     ctx.cov["leaf_kinds_edited"] = dict(sorted(kinds.items()))
     cans = []
     def canary(name, mut):
